@@ -147,6 +147,8 @@ func (x *Exec) specKeyBuiltin(env *SpecEnv, name string, e *SExpr) (Value, bool)
 	case "concatid":
 		x.concatAxioms()
 		return IntV{App("strfn_concat", SInt, arg(0), arg(1))}, true
+	case "durstr":
+		return IntV{App("durstr", SInt, x.asTerm(x.specEval(env, e.Args[0])))}, true
 	case "splithost":
 		return IntV{App("strfn_splithost", SInt, arg(0))}, true
 	case "pemnotafter":
